@@ -64,6 +64,8 @@ def _editable_fields(item):
         value = getattr(item, field.name, None)
         if isinstance(value, (bytes, bytearray)) or (isinstance(value, str) and value.isascii()):
             out.append(field.name)
+        elif isinstance(value, _array_base()) and len(value):
+            out.append(field.name)          # an inner vector: edited through its own sequence interface
     return out
 
 
@@ -100,6 +102,16 @@ def nested_edits(obj, rng, limit=2):
     for vector, index, item, name in found[:limit]:
         value = getattr(item, name)
         how = rng.choice(('grow', 'grow', 'shrink', 'grow-inplace'))
+        if isinstance(value, _array_base()):
+            try:
+                if how == 'shrink' and len(value) >= 2:
+                    del value[-1]
+                else:
+                    value.append(list(value)[0])
+            except Exception:  # pylint: disable=broad-except
+                continue        # the inner vector is at a bound: not an edit it accepts
+            done.append('%s[%d].%s: inner vector %s' % (type(vector).__name__, index, name, 'shortened' if how == 'shrink' and len(value) >= 1 else 'extended'))
+            continue
         if isinstance(value, str):
             new = value + 'xy' if how != 'shrink' or len(value) < 2 else value[:-1]
         elif how == 'shrink' and len(value) >= 2:
